@@ -70,6 +70,11 @@ search_cases = cases
 KNOWN_WITNESS = None
 
 
+def setup(ctx):
+    ctx.logfile = os.path.join(common.scratch_root(), 'calllog-c06.jsonl')
+    os.environ[fns.LOG_ENV] = ctx.logfile
+
+
 def _mk_farmer(xyz, c, f, data, tag=''):
     desc = c['desc']
     sw = crops.sorted_sweep(c['sweep'])
@@ -138,6 +143,7 @@ def run_real(c, ctx):
             crop.grow(ids[:len(ids) // 2] or ids, verbosity=0)
             crop.grow_missing(verbosity=0)
             calls_crop = sorted(json.dumps(kw, sort_keys=True, default=str) for kw in fns.read_log())
+            if not calls_crop: raise AssertionError('harness: the call log is empty after growing')
             fns.reset_log()
             if 'after_grow' in c['reload']:
                 crop = xyz.Crop(name='t', parent_dir=d)
